@@ -512,3 +512,470 @@ Qed.
 Lemma word_select_correct sp m w r : w < 2 ^ 64 -> r < popcount w ->
   exists p, word_select sp m w r = Ok p /\ select_in_word w r = Some p /\ p < 64.
 Proof. intros Hw Hr. destruct sp; [apply select_pdep_correct|apply select_portable_correct]; assumption. Qed.
+
+(* ---- intrinsics on a nonzero word ---- *)
+
+Lemma tz_spec w : w <> 0 ->
+  N.testbit w (trailing_zeros w) = true /\ forall j, j < trailing_zeros w -> N.testbit w j = false.
+Proof.
+  destruct w as [|q]; [intros H; contradiction|]. intros _. cbn [trailing_zeros].
+  induction q as [q IH|q IH|]; cbn [ctz_pos].
+  - split; [reflexivity|]. intros j Hj. lia.
+  - destruct IH as [IH1 IH2]. change (N.pos q~0) with (2 * N.pos q). split.
+    + rewrite N.add_1_l, N.testbit_even_succ by lia. exact IH1.
+    + intros j Hj. destruct (N.eq_dec j 0) as [->|Hn]; [apply N.testbit_even_0|].
+      replace j with (N.succ (j - 1)) by lia. rewrite N.testbit_even_succ by lia. apply IH2. lia.
+  - split; [reflexivity|]. intros j Hj. lia.
+Qed.
+
+Lemma lz_spec w : 0 < w < 2 ^ 64 -> bits_WORD_BITS - 1 - leading_zeros w = N.log2 w /\ N.log2 w < 64.
+Proof.
+  intros [H0 H1]. unfold leading_zeros. change bits_WORD_BITS with 64.
+  rewrite N.size_log2 by lia. assert (N.log2 w < 64) by (apply N.log2_lt_pow2; lia). lia.
+Qed.
+
+Lemma bit_offset_spec i o : bit_offset i o = 64 * i + o.
+Proof. unfold bit_offset. change bits_INDEX_SHIFT with 6. rewrite N.shiftl_mul_pow2. change (2 ^ 6) with 64. lia. Qed.
+
+Lemma wseg_zero B k lo hi w : wseg B k lo hi w -> w = 0 -> hi <= 64 ->
+  forall p, 64 * k + lo <= p < 64 * k + hi -> bitB B p = false.
+Proof.
+  intros [_ H] -> Hhi p Hp. specialize (H (p - 64 * k) ltac:(lia)). rewrite N.bits_0 in H.
+  replace (64 * k + (p - 64 * k)) with p in H by lia.
+  replace (lo <=? p - 64 * k) with true in H by lia. replace (p - 64 * k <? hi) with true in H by lia.
+  cbn [andb] in H. congruence.
+Qed.
+
+Lemma nwords_lt B p : p < lenB B -> p / 64 < nwords B.
+Proof. unfold nwords. lia. Qed.
+
+Lemma scan_fuel_spec b B : bv_repr b B -> N.of_nat (scan_fuel b) = nwords B + 2.
+Proof. intros H. destruct (repr_facts b B H) as (_ & _ & Hnw & _). unfold scan_fuel. unfold lenN in Hnw. lia. Qed.
+
+(* ---- the three word scans: they stop inside the array, with fuel to spare ---- *)
+
+Lemma scan_fwd_spec t b B : bv_repr b B -> forall fuel index lo w q,
+  index < nwords B -> wseg (t_bits t B) index lo 64 w -> lo <= 64 ->
+  bitB (t_bits t B) q = true -> 64 * index + lo <= q ->
+  nwords B <= index + N.of_nat fuel ->
+  exists index' w', scan_fwd t b fuel index w = Ok (index', w') /\
+    bitB (t_bits t B) (bit_offset index' (trailing_zeros w')) = true /\
+    rank1 (t_bits t B) (bit_offset index' (trailing_zeros w')) = rank1 (t_bits t B) (64 * index + lo).
+Proof.
+  intros Hrep. induction fuel as [|fuel IH]; intros index lo w q Hidx Hseg Hlo Hq Hle Hfuel; [lia|].
+  cbn [scan_fwd]. destruct (N.eqb_spec w 0) as [Hw|Hw].
+  - pose proof (wseg_zero _ _ _ _ _ Hseg Hw (N.le_refl _)) as Hz.
+    assert (Hq' : 64 * (index + 1) <= q).
+    { destruct (N.le_gt_cases (64 * (index + 1)) q) as [H|H]; [exact H|]. rewrite Hz in Hq by lia. discriminate. }
+    assert (Hidx' : index + 1 < nwords B).
+    { apply bitB_lt in Hq. rewrite t_bits_len in Hq. unfold nwords. lia. }
+    destruct (t_word_view t b B (index + 1) Hrep Hidx') as (w1 & Hw1 & Hseg1).
+    rewrite Hw1. cbn [bind].
+    destruct (IH (index + 1) 0 w1 q Hidx' Hseg1 ltac:(lia) Hq ltac:(lia) ltac:(lia)) as (i' & w' & E & Hb & Hr).
+    exists i', w'. split; [exact E|]. split; [exact Hb|]. rewrite Hr.
+    apply rank1_no_ones; [lia|]. intros p Hp. apply Hz. lia.
+  - exists index, w. split; [reflexivity|]. destruct (tz_spec w Hw) as [T1 T2].
+    destruct Hseg as [Hlt Hbits].
+    assert (Htz : trailing_zeros w < 64).
+    { destruct (N.lt_ge_cases (trailing_zeros w) 64) as [H|H]; [exact H|].
+      rewrite (testbit_high w _ Hlt H) in T1. discriminate. }
+    rewrite bit_offset_spec. pose proof (Hbits _ Htz) as Hb. rewrite T1 in Hb.
+    destruct (N.leb_spec lo (trailing_zeros w)) as [H1|H1]; [|discriminate].
+    replace (trailing_zeros w <? 64) with true in Hb by lia. cbn [andb] in Hb.
+    split; [congruence|]. apply rank1_no_ones; [lia|]. intros p Hp.
+    specialize (Hbits (p - 64 * index) ltac:(lia)). rewrite T2 in Hbits by lia.
+    replace (64 * index + (p - 64 * index)) with p in Hbits by lia.
+    replace (lo <=? p - 64 * index) with true in Hbits by lia.
+    replace (p - 64 * index <? 64) with true in Hbits by lia. cbn [andb] in Hbits. congruence.
+Qed.
+
+Lemma scan_bwd_spec m t b B : bv_repr b B -> forall fuel index hi w q,
+  index < nwords B -> wseg (t_bits t B) index 0 hi w -> hi <= 64 ->
+  bitB (t_bits t B) q = true -> q < 64 * index + hi ->
+  index < N.of_nat fuel ->
+  exists index' w', scan_bwd m t b fuel index w = Ok (index', w') /\
+    let p := bit_offset index' (bits_WORD_BITS - 1 - leading_zeros w') in
+    bitB (t_bits t B) p = true /\
+    rank1 (t_bits t B) (p + 1) = rank1 (t_bits t B) (64 * index + hi).
+Proof.
+  intros Hrep. induction fuel as [|fuel IH]; intros index hi w q Hidx Hseg Hhi Hq Hlt Hfuel; [lia|].
+  cbn [scan_bwd]. destruct (N.eqb_spec w 0) as [Hw|Hw].
+  - pose proof (wseg_zero _ _ _ _ _ Hseg Hw Hhi) as Hz.
+    assert (Hq' : q < 64 * index).
+    { destruct (N.lt_ge_cases q (64 * index)) as [H|H]; [exact H|]. rewrite Hz in Hq by lia. discriminate. }
+    assert (Hpos : 1 <= index) by lia.
+    unfold usub. replace (1 <=? index) with true by lia. cbn [bind].
+    assert (Hidx' : index - 1 < nwords B) by lia.
+    destruct (t_word_view t b B (index - 1) Hrep Hidx') as (w1 & Hw1 & Hseg1).
+    rewrite Hw1. cbn [bind].
+    destruct (IH (index - 1) 64 w1 q Hidx' Hseg1 ltac:(lia) Hq ltac:(lia) ltac:(lia)) as (i' & w' & E & Hb & Hr).
+    exists i', w'. split; [exact E|]. cbv zeta. split; [exact Hb|]. rewrite Hr.
+    replace (64 * (index - 1) + 64) with (64 * index + 0) by lia.
+    symmetry. apply rank1_no_ones; [lia|]. intros p Hp. apply Hz. lia.
+  - exists index, w. split; [reflexivity|]. destruct Hseg as [Hwlt Hbits].
+    destruct (lz_spec w ltac:(lia)) as [-> Hl]. cbv zeta. rewrite bit_offset_spec.
+    pose proof (Hbits _ Hl) as Hb. rewrite N.bit_log2 in Hb by exact Hw.
+    replace (0 <=? N.log2 w) with true in Hb by lia.
+    destruct (N.ltb_spec (N.log2 w) hi) as [H1|H1]; [|discriminate]. cbn [andb] in Hb.
+    split; [congruence|]. symmetry. apply rank1_no_ones; [lia|]. intros p Hp.
+    specialize (Hbits (p - 64 * index) ltac:(lia)). rewrite N.bits_above_log2 in Hbits by lia.
+    replace (64 * index + (p - 64 * index)) with p in Hbits by lia.
+    replace (0 <=? p - 64 * index) with true in Hbits by lia.
+    replace (p - 64 * index <? hi) with true in Hbits by lia. cbn [andb] in Hbits. congruence.
+Qed.
+
+Lemma scan_rank_spec t b B : bv_repr b B -> forall fuel index lo w rr,
+  index < nwords B -> wseg (t_bits t B) index lo 64 w -> lo <= 64 ->
+  rank1 (t_bits t B) (64 * index + lo) + rr < count (t_bits t B) ->
+  nwords B <= index + N.of_nat fuel ->
+  exists index' w' rr' lo', scan_rank t b fuel index w rr = Ok (index', w', rr') /\
+    rr' < popcount w' /\ wseg (t_bits t B) index' lo' 64 w' /\ lo' <= 64 /\
+    rank1 (t_bits t B) (64 * index' + lo') + rr' = rank1 (t_bits t B) (64 * index + lo) + rr.
+Proof.
+  intros Hrep. induction fuel as [|fuel IH]; intros index lo w rr Hidx Hseg Hlo Htgt Hfuel; [lia|].
+  cbn [scan_rank]. pose proof (wseg_popcount _ _ _ _ _ Hseg ltac:(lia)) as Hpc.
+  destruct (N.leb_spec (popcount w) rr) as [Hle|Hgt].
+  - assert (Hidx' : index + 1 < nwords B).
+    { assert (H : 64 * index + 64 < lenB (t_bits t B)) by (apply rank1_lt_count_lt; lia).
+      rewrite t_bits_len in H. unfold nwords. lia. }
+    destruct (t_word_view t b B (index + 1) Hrep Hidx') as (w1 & Hw1 & Hseg1).
+    rewrite Hw1. cbn [bind].
+    assert (E0 : 64 * (index + 1) + 0 = 64 * index + 64) by lia.
+    destruct (IH (index + 1) 0 w1 (rr - popcount w) Hidx' Hseg1 ltac:(lia)) as (i' & w' & r' & lo' & E & H1 & H2 & H3 & H4);
+      [rewrite E0; lia|lia|].
+    exists i', w', r', lo'. split; [exact E|]. split; [exact H1|]. split; [exact H2|]. split; [exact H3|].
+    rewrite H4, E0. lia.
+  - exists index, w, rr, lo. split; [reflexivity|]. split; [exact Hgt|]. split; [exact Hseg|]. split; [exact Hlo|reflexivity].
+Qed.
+
+(* scan + in-word select: the position found is the set bit of the requested rank *)
+Lemma scan_rank_select sp m t b B : bv_repr b B -> forall fuel index lo w rr,
+  index < nwords B -> wseg (t_bits t B) index lo 64 w -> lo <= 64 ->
+  rank1 (t_bits t B) (64 * index + lo) + rr < count (t_bits t B) ->
+  nwords B <= index + N.of_nat fuel ->
+  exists index' w' rr' off, scan_rank t b fuel index w rr = Ok (index', w', rr') /\
+    word_select sp m w' rr' = Ok off /\
+    bitB (t_bits t B) (bit_offset index' off) = true /\
+    rank1 (t_bits t B) (bit_offset index' off) = rank1 (t_bits t B) (64 * index + lo) + rr.
+Proof.
+  intros Hrep fuel index lo w rr Hidx Hseg Hlo Htgt Hfuel.
+  destruct (scan_rank_spec t b B Hrep fuel index lo w rr Hidx Hseg Hlo Htgt Hfuel)
+    as (i' & w' & r' & lo' & E & H1 & H2 & H3 & H4).
+  destruct (word_select_correct sp m w' r' (proj1 H2) H1) as (off & Hs & Hsw & Hoff).
+  destruct (wseg_select _ _ _ _ _ _ _ H2 ltac:(lia) Hsw) as (_ & Hb & Hr).
+  exists i', w', r', off. split; [exact E|]. split; [exact Hs|]. rewrite bit_offset_spec.
+  split; [exact Hb|]. lia.
+Qed.
+
+(* ================================================================ (B) the iterator as a deque *)
+
+(* items of ranks n0 .. l0-1 of a position list, with their ranks *)
+Definition mid_of (P : list N) (n0 l0 : N) : list (N * N) :=
+  firstn (N.to_nat (l0 - n0)) (skipN (index_from P 0) n0).
+
+Lemma nth_opt_mid_of P n0 l0 i :
+  nth_opt (mid_of P n0 l0) i =
+  if i <? l0 - n0 then option_map (fun x => (n0 + i, x)) (nth_opt P (n0 + i)) else None.
+Proof.
+  unfold mid_of. rewrite nth_opt_firstn, N2Nat.id, nth_opt_skipN, nth_opt_index_from.
+  destruct (i <? l0 - n0); [|reflexivity].
+  destruct (nth_opt P (n0 + i)); cbn [option_map]; [do 2 f_equal; lia|reflexivity].
+Qed.
+
+Lemma mid_of_nil P n0 l0 : l0 <= n0 -> mid_of P n0 l0 = [].
+Proof. intros H. unfold mid_of. replace (l0 - n0) with 0 by lia. reflexivity. Qed.
+
+Lemma mid_of_tl P n0 l0 : tl (mid_of P n0 l0) = mid_of P (n0 + 1) l0.
+Proof.
+  apply nth_opt_ext. intros i. rewrite nth_opt_tl, !nth_opt_mid_of.
+  replace (n0 + (i + 1)) with (n0 + 1 + i) by lia.
+  destruct (N.ltb_spec (i + 1) (l0 - n0)); destruct (N.ltb_spec i (l0 - (n0 + 1))); try lia; reflexivity.
+Qed.
+
+Lemma mid_of_skip P n0 l0 k : skipN (mid_of P n0 l0) k = mid_of P (n0 + k) l0.
+Proof.
+  apply nth_opt_ext. intros i. rewrite nth_opt_skipN, !nth_opt_mid_of.
+  replace (n0 + (k + i)) with (n0 + k + i) by lia.
+  destruct (N.ltb_spec (k + i) (l0 - n0)); destruct (N.ltb_spec i (l0 - (n0 + k))); try lia; reflexivity.
+Qed.
+
+Lemma mid_of_len P n0 l0 : l0 <= lenN P -> lenN (mid_of P n0 l0) = l0 - n0.
+Proof.
+  intros H. unfold mid_of. rewrite lenN_firstn, N2Nat.id, lenN_skipN, lenN_index_from. lia.
+Qed.
+
+Lemma mid_of_all P n0 : mid_of P n0 (lenN P) = skipN (index_from P 0) n0.
+Proof.
+  unfold mid_of. apply firstn_all2.
+  pose proof (lenN_skipN (index_from P 0) n0) as H. rewrite lenN_index_from in H. unfold lenN in *. lia.
+Qed.
+
+Lemma mid_of_last P n0 l0 x : n0 < l0 -> nth_opt P (l0 - 1) = Some x ->
+  mid_of P n0 l0 = mid_of P n0 (l0 - 1) ++ [(l0 - 1, x)].
+Proof.
+  intros Hlt Hx. pose proof (nth_opt_Some_lt _ _ _ Hx) as Hlen.
+  apply nth_opt_ext. intros i. rewrite nth_opt_app. fold (lenN (mid_of P n0 (l0 - 1))).
+  rewrite mid_of_len by lia. rewrite !nth_opt_mid_of.
+  destruct (N.ltb_spec i (l0 - 1 - n0)) as [H1|H1].
+  - replace (i <? l0 - n0) with true by lia. reflexivity.
+  - destruct (N.eq_dec i (l0 - 1 - n0)) as [->|Hne].
+    + replace (l0 - 1 - n0 <? l0 - n0) with true by lia.
+      replace (n0 + (l0 - 1 - n0)) with (l0 - 1) by lia. rewrite Hx.
+      replace (l0 - 1 - n0 - (l0 - 1 - n0)) with 0 by lia. reflexivity.
+    + replace (i <? l0 - n0) with false by lia. cbn [nth_opt].
+      replace (i - (l0 - 1 - n0) =? 0) with false by lia. reflexivity.
+Qed.
+
+(* the ranked positions of the set bits of the transformed sequence *)
+Definition oi_R (t : transf) (B : list bool) : list (N * N) := index_from (ones (t_bits t B)) 0.
+
+(* abstraction function: the items the iterator has not visited, front to back *)
+Definition oi_mid (t : transf) (B : list bool) (it : one_iter) : list (N * N) :=
+  firstn (N.to_nat (fst (oi_limit it) - fst (oi_next it))) (skipN (oi_R t B) (fst (oi_next it))).
+
+Lemma oi_mid_mid_of t B it :
+  oi_mid t B it = mid_of (ones (t_bits t B)) (fst (oi_next it)) (fst (oi_limit it)).
+Proof. reflexivity. Qed.
+
+(* invariant: next.0 <= limit.0 <= number of ones, limit.1 <= len, and while items remain
+   rank(next.1) = next.0 and rank(limit.1) = limit.0 *)
+Definition oi_inv (t : transf) (B : list bool) (it : one_iter) : Prop :=
+  fst (oi_next it) <= fst (oi_limit it) <= count (t_bits t B) /\
+  snd (oi_limit it) <= lenB (t_bits t B) /\
+  (fst (oi_next it) < fst (oi_limit it) ->
+   rank1 (t_bits t B) (snd (oi_next it)) = fst (oi_next it) /\
+   rank1 (t_bits t B) (snd (oi_limit it)) = fst (oi_limit it)).
+
+(* the invariant in the words of the comments of the source: next.1 <= select(next.0) with no set bit
+   in between; limit.1 > select(limit.0 - 1) with no set bit in between; limit.1 <= len *)
+Lemma oi_inv_source_comments t B it : oi_inv t B it -> fst (oi_next it) < fst (oi_limit it) ->
+  (exists p, nth_opt (ones (t_bits t B)) (fst (oi_next it)) = Some p /\ snd (oi_next it) <= p /\
+             forall x, snd (oi_next it) <= x < p -> bitB (t_bits t B) x = false) /\
+  (exists q, nth_opt (ones (t_bits t B)) (fst (oi_limit it) - 1) = Some q /\ q < snd (oi_limit it) /\
+             forall x, q < x < snd (oi_limit it) -> bitB (t_bits t B) x = false) /\
+  snd (oi_limit it) <= lenB (t_bits t B).
+Proof.
+  intros (Hb & Hl & Hg) Hne. destruct (Hg Hne) as [Hn1 Hl1]. set (B' := t_bits t B) in *.
+  assert (Hmono : forall x y, rank1 B' x < rank1 B' y -> x < y).
+  { intros x y H. destruct (N.lt_ge_cases x y) as [G|G]; [exact G|]. pose proof (rank1_mono B' y x G). lia. }
+  split; [|split; [|exact Hl]].
+  - destruct (select_exists B' (fst (oi_next it)) ltac:(lia)) as (p & Hp & Hbit & Hr & _).
+    exists p. split; [exact Hp|].
+    assert (Hle : snd (oi_next it) <= p).
+    { destruct (N.le_gt_cases (snd (oi_next it)) p) as [G|G]; [exact G|].
+      pose proof (rank1_mono B' (p + 1) (snd (oi_next it)) ltac:(lia)) as M.
+      rewrite rank1_succ, Hbit in M. cbn [b2n] in M. lia. }
+    split; [exact Hle|]. intros x Hx. destruct (bitB B' x) eqn:E; [|reflexivity].
+    pose proof (rank1_mono B' (snd (oi_next it)) x ltac:(lia)) as M1.
+    pose proof (rank1_mono B' (x + 1) p ltac:(lia)) as M2. rewrite rank1_succ, E in M2. cbn [b2n] in M2. lia.
+  - destruct (select_exists B' (fst (oi_limit it) - 1) ltac:(lia)) as (q & Hq & Hbit & Hr & _).
+    exists q. split; [exact Hq|].
+    assert (Hlt : q < snd (oi_limit it)) by (apply Hmono; lia).
+    split; [exact Hlt|]. intros x Hx. destruct (bitB B' x) eqn:E; [|reflexivity].
+    pose proof (rank1_mono B' (q + 1) x ltac:(lia)) as M1. rewrite rank1_succ, Hbit in M1. cbn [b2n] in M1.
+    pose proof (rank1_mono B' (x + 1) (snd (oi_limit it)) ltac:(lia)) as M2. rewrite rank1_succ, E in M2.
+    cbn [b2n] in M2. lia.
+Qed.
+
+Lemma rank1_lt_pos B x y : rank1 B x < rank1 B y -> x < y.
+Proof.
+  intros H. destruct (N.lt_ge_cases x y) as [G|G]; [exact G|]. pose proof (rank1_mono B y x G). lia.
+Qed.
+
+Lemma rank1_full B : rank1 B (lenB B) = count B.
+Proof. apply rank1_all. lia. Qed.
+
+(* ---- starting points ---- *)
+
+Lemma oi_start_inv t b B : bv_repr b B ->
+  oi_inv t B (oi_start t b) /\ oi_mid t B (oi_start t b) = oi_R t B.
+Proof.
+  intros Hrep. pose proof (t_count_ones_spec t b B Hrep) as Hc.
+  destruct (repr_facts b B Hrep) as (HL & _).
+  unfold oi_start, oi_inv, oi_mid. cbn [oi_next oi_limit fst snd]. rewrite Hc, t_bits_len, HL.
+  split.
+  - split; [lia|]. split; [lia|]. intros _. split; [apply rank1_0|].
+    rewrite <- HL, <- (t_bits_len t B). apply rank1_full.
+  - rewrite N.sub_0_r. rewrite <- (lenN_ones (t_bits t B)). unfold oi_R.
+    pose proof (mid_of_all (ones (t_bits t B)) 0) as E. unfold mid_of in E. rewrite N.sub_0_r in E.
+    rewrite E. destruct (index_from (ones (t_bits t B)) 0); reflexivity.
+Qed.
+
+Lemma oi_empty_inv t b B : bv_repr b B ->
+  oi_inv t B (oi_empty t b) /\ oi_mid t B (oi_empty t b) = [].
+Proof.
+  intros Hrep. pose proof (t_count_ones_spec t b B Hrep) as Hc.
+  destruct (repr_facts b B Hrep) as (HL & _).
+  unfold oi_empty, oi_inv, oi_mid. cbn [oi_next oi_limit fst snd]. rewrite Hc, t_bits_len, HL.
+  split.
+  - split; [lia|]. split; [lia|]. intros H. lia.
+  - rewrite N.sub_diag. reflexivity.
+Qed.
+
+(* an iterator positioned by select_iter: next = (r, select r), limit = (count, len) *)
+Lemma oi_at_inv t b B r p : bv_repr b B -> nth_opt (ones (t_bits t B)) r = Some p ->
+  let it := mkoi (r, p) (t_count_ones t b, bv_len b) in
+  oi_inv t B it /\ oi_mid t B it = skipN (oi_R t B) r.
+Proof.
+  intros Hrep Hp it. pose proof (t_count_ones_spec t b B Hrep) as Hc.
+  destruct (repr_facts b B Hrep) as (HL & _).
+  pose proof (nth_opt_Some_lt _ _ _ Hp) as Hr. rewrite lenN_ones in Hr.
+  apply nth_opt_ones_char in Hp. destruct Hp as [Hbit Hrk].
+  unfold it, oi_inv, oi_mid. cbn [oi_next oi_limit fst snd]. rewrite Hc, t_bits_len, HL. split.
+  - split; [lia|]. split; [lia|]. intros _. split; [exact Hrk|].
+    rewrite <- HL, <- (t_bits_len t B). apply rank1_full.
+  - rewrite <- (lenN_ones (t_bits t B)). apply mid_of_all.
+Qed.
+
+(* ---- len ---- *)
+
+Theorem oi_len_spec t B it : oi_inv t B it -> oi_len it = lenN (oi_mid t B it).
+Proof.
+  intros (Hb & _). rewrite oi_mid_mid_of, mid_of_len by (rewrite lenN_ones; lia). reflexivity.
+Qed.
+
+(* ---- next ---- *)
+
+Theorem oi_next_spec t b B it : bv_repr b B -> oi_inv t B it ->
+  exists it', oi_next_f t b it = Ok (it', hd_error (oi_mid t B it)) /\
+              oi_inv t B it' /\ oi_mid t B it' = tl (oi_mid t B it).
+Proof.
+  intros Hrep Hinv. pose proof Hinv as (Hb & Hl & Hg). unfold oi_next_f.
+  destruct it as [[n0 n1] [l0 l1]]. cbn [oi_next oi_limit fst snd] in *.
+  rewrite !oi_mid_mid_of. cbn [oi_next oi_limit fst snd].
+  destruct (N.leb_spec l0 n0) as [Hemp|Hne].
+  - exists (mkoi (n0, n1) (l0, l1)). rewrite mid_of_nil by lia. split; [reflexivity|]. split; [exact Hinv|].
+    rewrite oi_mid_mid_of. cbn [oi_next oi_limit fst snd]. rewrite mid_of_nil by lia. reflexivity.
+  - destruct (Hg Hne) as [Hn1 Hl1]. set (B' := t_bits t B) in *.
+    destruct (select_exists B' n0 ltac:(lia)) as (q & Hq & Hqbit & Hqr & Hqlen).
+    assert (Hn1q : n1 <= q).
+    { destruct (N.le_gt_cases n1 q) as [G|G]; [exact G|].
+      pose proof (rank1_mono B' (q + 1) n1 ltac:(lia)) as M. rewrite rank1_succ, Hqbit in M. cbn [b2n] in M. lia. }
+    rewrite split_offset_spec. unfold B' in Hqlen. rewrite t_bits_len in Hqlen.
+    assert (Hidx : n1 / 64 < nwords B) by (apply nwords_lt; lia).
+    destruct (t_word_view t b B _ Hrep Hidx) as (w0 & Hw0 & Hseg0). rewrite Hw0. cbn [bind].
+    rewrite low_set_unchecked_ok by lia. cbn [bind].
+    pose proof (wseg_mask_low _ _ _ _ _ (n1 mod 64) Hseg0 ltac:(lia)) as Hseg.
+    replace (N.max 0 (n1 mod 64)) with (n1 mod 64) in Hseg by lia.
+    destruct (scan_fwd_spec t b B Hrep (scan_fuel b) (n1 / 64) (n1 mod 64) _ q Hidx Hseg ltac:(lia) Hqbit ltac:(lia))
+      as (i' & w' & E & Hpb & Hpr).
+    { rewrite (scan_fuel_spec b B Hrep). lia. }
+    rewrite E. cbn [bind fst snd].
+    replace (64 * (n1 / 64) + n1 mod 64) with n1 in Hpr by lia. fold B' in Hpb, Hpr.
+    set (p := bit_offset i' (trailing_zeros w')) in *.
+    assert (Hp : nth_opt (ones B') n0 = Some p) by (apply nth_opt_ones_char; split; [exact Hpb|lia]).
+    eexists. split; [|split].
+    + f_equal. f_equal. rewrite nth_opt_hd, nth_opt_mid_of. replace (0 <? l0 - n0) with true by lia.
+      rewrite N.add_0_r, Hp. reflexivity.
+    + unfold oi_inv. cbn [oi_next oi_limit fst snd]. fold B'. split; [lia|]. split; [exact Hl|].
+      intros _. split; [|exact Hl1]. rewrite rank1_succ, Hpb. cbn [b2n]. lia.
+    + rewrite oi_mid_mid_of. cbn [oi_next oi_limit fst snd]. symmetry. apply mid_of_tl.
+Qed.
+
+(* the scan of next() never reports exhausted fuel, an overflow, or an access outside the words *)
+Corollary oi_next_total t b B it : bv_repr b B -> oi_inv t B it -> is_ok (oi_next_f t b it) = true.
+Proof. intros H1 H2. destruct (oi_next_spec t b B it H1 H2) as (it' & -> & _). reflexivity. Qed.
+
+(* ---- nth ---- *)
+
+Theorem oi_nth_spec sp m t b B it n : bv_repr b B -> oi_inv t B it ->
+  exists it', oi_nth sp m t b it n = Ok (it', nth_opt (oi_mid t B it) n) /\
+              oi_inv t B it' /\ oi_mid t B it' = skipN (oi_mid t B it) (n + 1).
+Proof.
+  intros Hrep Hinv. pose proof Hinv as (Hb & Hl & Hg). unfold oi_nth.
+  destruct it as [[n0 n1] [l0 l1]]. cbn [oi_next oi_limit fst snd] in *.
+  rewrite !oi_mid_mid_of. cbn [oi_next oi_limit fst snd].
+  unfold usub. replace (n0 <=? l0) with true by lia. cbn [bind].
+  rewrite mid_of_skip, nth_opt_mid_of.
+  destruct (N.leb_spec (l0 - n0) n) as [Hemp|Hne].
+  - replace (n <? l0 - n0) with false by lia.
+    exists (mkoi (l0, l1) (l0, l1)). split; [reflexivity|]. split.
+    + unfold oi_inv. cbn [oi_next oi_limit fst snd]. split; [lia|]. split; [exact Hl|]. intros H. lia.
+    + rewrite oi_mid_mid_of. cbn [oi_next oi_limit fst snd]. rewrite !mid_of_nil by lia. reflexivity.
+  - replace (n <? l0 - n0) with true by lia.
+    destruct (Hg ltac:(lia)) as [Hn1 Hl1]. set (B' := t_bits t B) in *.
+    assert (Hn1len : n1 < lenB B) by (rewrite <- (t_bits_len t B); apply rank1_lt_count_lt; fold B'; lia).
+    rewrite split_offset_spec.
+    assert (Hidx : n1 / 64 < nwords B) by (apply nwords_lt; lia).
+    destruct (t_word_view t b B _ Hrep Hidx) as (w0 & Hw0 & Hseg0). rewrite Hw0. cbn [bind].
+    rewrite low_set_unchecked_ok by lia. cbn [bind].
+    pose proof (wseg_mask_low _ _ _ _ _ (n1 mod 64) Hseg0 ltac:(lia)) as Hseg.
+    replace (N.max 0 (n1 mod 64)) with (n1 mod 64) in Hseg by lia.
+    assert (En1 : 64 * (n1 / 64) + n1 mod 64 = n1) by lia.
+    destruct (scan_rank_select sp m t b B Hrep (scan_fuel b) (n1 / 64) (n1 mod 64) _ n Hidx Hseg ltac:(lia))
+      as (i' & w' & r' & off & E & Hsel & Hpb & Hpr).
+    { rewrite En1. fold B'. lia. }
+    { rewrite (scan_fuel_spec b B Hrep). lia. }
+    rewrite E. cbn [bind]. rewrite Hsel. cbn [bind fst snd].
+    rewrite En1 in Hpr. fold B' in Hpb, Hpr. set (p := bit_offset i' off) in *.
+    assert (Hp : nth_opt (ones B') (n0 + n) = Some p) by (apply nth_opt_ones_char; split; [exact Hpb|lia]).
+    eexists. split; [|split].
+    + rewrite Hp. reflexivity.
+    + unfold oi_inv. cbn [oi_next oi_limit fst snd]. fold B'. split; [lia|]. split; [exact Hl|].
+      intros _. split; [|exact Hl1]. rewrite rank1_succ, Hpb. cbn [b2n]. lia.
+    + rewrite oi_mid_mid_of. cbn [oi_next oi_limit fst snd]. f_equal. lia.
+Qed.
+
+Corollary oi_nth_exhausts sp m t b B it n : bv_repr b B -> oi_inv t B it -> lenN (oi_mid t B it) <= n ->
+  exists it', oi_nth sp m t b it n = Ok (it', None) /\ oi_inv t B it' /\ oi_mid t B it' = [].
+Proof.
+  intros H1 H2 Hn. destruct (oi_nth_spec sp m t b B it n H1 H2) as (it' & E & Hi & Hm).
+  exists it'. rewrite nth_opt_None in E by exact Hn. split; [exact E|]. split; [exact Hi|].
+  rewrite Hm. apply nth_opt_ext. intros i. rewrite nth_opt_skipN. cbn [nth_opt]. apply nth_opt_None. lia.
+Qed.
+
+(* ---- next_back ---- *)
+
+Theorem oi_next_back_spec m t b B it : bv_repr b B -> oi_inv t B it ->
+  (oi_mid t B it = [] /\ oi_next_back m t b it = Ok (it, None)) \/
+  (exists it' x, oi_next_back m t b it = Ok (it', Some x) /\ oi_inv t B it' /\
+                 oi_mid t B it = oi_mid t B it' ++ [x]).
+Proof.
+  intros Hrep Hinv. pose proof Hinv as (Hb & Hl & Hg). unfold oi_next_back.
+  destruct it as [[n0 n1] [l0 l1]]. cbn [oi_next oi_limit fst snd] in *.
+  rewrite !oi_mid_mid_of. cbn [oi_next oi_limit fst snd].
+  destruct (N.leb_spec l0 n0) as [Hemp|Hne].
+  - left. split; [apply mid_of_nil; lia|reflexivity].
+  - right. destruct (Hg Hne) as [Hn1 Hl1]. set (B' := t_bits t B) in *.
+    destruct (select_exists B' (l0 - 1) ltac:(lia)) as (q & Hq & Hqbit & Hqr & Hqlen).
+    assert (Hql : q < l1) by (apply (rank1_lt_pos B'); lia).
+    unfold usub. replace (1 <=? l0) with true by lia. replace (1 <=? l1) with true by lia. cbn [bind].
+    rewrite split_offset_spec.
+    assert (Hl' : l1 <= lenB B) by (rewrite <- (t_bits_len t B); exact Hl).
+    assert (Hidx : (l1 - 1) / 64 < nwords B) by (apply nwords_lt; lia).
+    destruct (t_word_view t b B _ Hrep Hidx) as (w0 & Hw0 & Hseg0). rewrite Hw0. cbn [bind].
+    rewrite low_set_unchecked_ok by lia. cbn [bind].
+    pose proof (wseg_mask_high _ _ _ _ _ ((l1 - 1) mod 64 + 1) Hseg0 ltac:(lia)) as Hseg.
+    replace (N.min 64 ((l1 - 1) mod 64 + 1)) with ((l1 - 1) mod 64 + 1) in Hseg by lia.
+    destruct (scan_bwd_spec m t b B Hrep (scan_fuel b) ((l1 - 1) / 64) ((l1 - 1) mod 64 + 1) _ q Hidx Hseg
+                ltac:(lia) Hqbit ltac:(lia)) as (i' & w' & E & Hpb & Hpr).
+    { rewrite (scan_fuel_spec b B Hrep). lia. }
+    rewrite E. cbn [bind]. cbv zeta in Hpb, Hpr.
+    replace (64 * ((l1 - 1) / 64) + ((l1 - 1) mod 64 + 1)) with l1 in Hpr by lia. fold B' in Hpb, Hpr.
+    set (p := bit_offset i' (bits_WORD_BITS - 1 - leading_zeros w')) in *.
+    assert (Hprk : rank1 B' p = l0 - 1) by (rewrite rank1_succ, Hpb in Hpr; cbn [b2n] in Hpr; lia).
+    assert (Hp : nth_opt (ones B') (l0 - 1) = Some p) by (apply nth_opt_ones_char; split; assumption).
+    exists (mkoi (n0, n1) (l0 - 1, p)), (l0 - 1, p). split; [reflexivity|]. split.
+    + unfold oi_inv. cbn [oi_next oi_limit fst snd]. fold B'. split; [lia|]. split.
+      * apply bitB_lt in Hpb. lia.
+      * intros _. split; [exact Hn1|exact Hprk].
+    + rewrite oi_mid_mid_of. cbn [oi_next oi_limit fst snd]. apply mid_of_last; assumption.
+Qed.
+
+(* ---- collecting from the start yields exactly the ranked positions ---- *)
+
+Lemma oi_collect_spec t b B : bv_repr b B -> forall fuel it, oi_inv t B it ->
+  (length (oi_mid t B it) < fuel)%nat -> oi_collect t b fuel it = Ok (oi_mid t B it).
+Proof.
+  intros Hrep. induction fuel as [|fuel IH]; intros it Hinv Hf; [lia|].
+  cbn [oi_collect]. destruct (oi_next_spec t b B it Hrep Hinv) as (it' & E & Hinv' & Hm).
+  rewrite E. cbn [bind]. destruct (oi_mid t B it) as [|x rest] eqn:Em; cbn [hd_error]; [reflexivity|].
+  cbn [tl] in Hm. rewrite IH; [rewrite Hm; reflexivity|exact Hinv'|rewrite Hm; cbn [length] in Hf; lia].
+Qed.
+
+Corollary oi_collect_all t b B fuel : bv_repr b B -> (length (oi_R t B) < fuel)%nat ->
+  oi_collect t b fuel (oi_start t b) = Ok (oi_R t B).
+Proof.
+  intros Hrep Hf. destruct (oi_start_inv t b B Hrep) as [Hinv Hm].
+  rewrite <- Hm. apply oi_collect_spec; [exact Hrep|exact Hinv|rewrite Hm; exact Hf].
+Qed.
